@@ -459,6 +459,12 @@ func (s *AbsfsNFS) WriteWithContext(ctx context.Context, node *NFSNode, offset i
 		data = data[:tuning.TransferSize]
 	}
 
+	// Enforce the configured maximum file size: a write that would extend the
+	// file beyond it is refused whole (NFS3ERR_FBIG) and stores nothing.
+	if policy.MaxFileSize > 0 && (offset > policy.MaxFileSize || int64(len(data)) > policy.MaxFileSize-offset) {
+		return 0, fmt.Errorf("write: %s: beyond the maximum file size of %d bytes: %w", node.path, policy.MaxFileSize, syscall.EFBIG)
+	}
+
 	// Standard write path
 	f, err := s.fs.OpenFile(node.path, os.O_WRONLY, 0)
 	if err != nil {
